@@ -45,6 +45,12 @@ def gen_cases(ctx):
         yield {"kind": "law", "seed": int(rng.integers(1 << 31)), "M": int(rng.choice([2, 3, 10, 50, 300])),
                "vol": "under_normalised" if i % 3 == 2 else str(rng.choice(["unique_dirichlet", "unique_sharp", "zeros", "zeros", "dominant"])),
                "n_samples": int(ctx.scale(200000, 1000000)), "rs": int(rng.integers(1 << 31))}
+    # very many draws from stacks that contain empty grains: a zero-volume grain must *never* be drawn, also not by the one
+    # uniform variate in 2**24 that a reduced-precision generator returns as exactly 0 (quick: ~2e8 draws in total)
+    for i in range(ctx.share(ctx.scale(96, 3200))):
+        rng = ctx.rng(3, i)
+        yield {"kind": "zero_hunt", "seed": int(rng.integers(1 << 31)), "M": int(rng.choice([3, 4, 6])), "N": 2,
+               "n_samples": 1000000, "rs": int(rng.integers(1 << 31))}
     if ctx.shard == 0:
         yield from malformed_cases()
 
@@ -196,6 +202,22 @@ def check_case(ctx, case):
             ctx.check("list_inputs_equivalent", False, case, key=f"raises/{type(e).__name__}", exc=str(e)[:150])
         if len(ctx.samples) < 2 and M >= 3:
             ctx.sample(case, first_draw_volumes=np.asarray(r1[1])[0][:5].tolist())
+        return
+    if kind == "zero_hunt":
+        M, ns = case["M"], case["n_samples"]
+        O, F = make_stack(rng, case["N"], M, "zeros")
+        if not (F == 0).any():
+            F[0, 0] = 0.0
+            F[0] /= F[0].sum()
+        st["unique"] = False
+        ctx.case(case, nontrivial=True)
+        try:
+            oo, ff = S.resample_orientations(O, F, n_samples=ns, seed=case["rs"])   # decided by the postcondition
+        except Exception as e:
+            ctx.check("call_returns", False, case, key=f"raises/{type(e).__name__}", exc=str(e)[:200])
+            return
+        ctx.count("zero_hunt_draws", int(np.size(ff)))
+        del oo, ff
         return
     if kind == "law":
         M, ns = case["M"], case["n_samples"]
